@@ -12,7 +12,8 @@ Viol(o) ==
   IF "s" \notin DOMAIN o.o THEN {"build-fail"} ELSE
   LET e == [i \in 1..Len(o.o.chars) |-> o.o.chars[i]]
       g == Narsese(e)
-  IN V(g.kind # "reject", "grammar-rejects")
+  IN V(o.o.entries_agree, "formatter-entry-points-write-different-texts")     \* format_narsese vs format_term / _sentence / _task (and FormatTo)
+     \cup V(g.kind # "reject", "grammar-rejects")
      \cup V(g.kind = "reject" \/ g.kind = o.o.kind, "grammar-classifies-differently")
      \cup V(o.o.lex.r = "ok", "library-lexical-parser-rejects")
      \cup V((g.kind # "reject" /\ o.o.lex.r = "ok") => (o.o.lex.v.kind = g.kind /\ J2LN(o.o.lex.v).v = g.v), "tree-differs")
